@@ -329,12 +329,19 @@ class C15(Prop):
                 + [gen_special_pair(rng, "tiny") for _ in range(12 * ns)]
                 + [gen_yates_pair(rng) for _ in range(12 * ns)]
                 + [gen_extreme_scale_pair(rng) for _ in range(24 * ns)]
-                + [gen_special_pair(rng, "inf") for _ in range(16 * ns)])
+                + [gen_special_pair(rng, "inf") for _ in range(16 * ns)]
+                + [gen_pair(rng, "twice") for _ in range(16 * ns)])
 
     def search_cases(self, rng, neighbours, rnd):
         return [gen_pair(rng) for _ in range(50)]
 
     def run_impl(self, case):
+        if case["kind"] == "twice":  # the SAME selector object selects twice on the same input
+            a = dict(case["a"])
+            a["again"] = {"y": a["y"]}
+            o = c14.run_selector(a)
+            ob = o.pop("again", None)
+            return {"a": o, "b": ob if ob is not None else c14.run_selector(case["b"])}
         return {"a": c14.run_selector(case["a"]), "b": c14.run_selector(case["b"])}
 
     # ---- predicate --------------------------------------------------------------------------
